@@ -225,7 +225,7 @@ def rust_string_literals(body):
 def run(tier, seed, replay=None):
     res = Result("C11", tier, seed, RULE)
     rng = rng_for(seed, "C11")
-    n = 200 if tier == "quick" else 3000
+    n = 200 if tier == "quick" else 8000
     cfg = GenCfg(p_fk=0.35, p_sub=0.3, max_depth=3, namespaces=0.35, p_absent=0.15, p_null=0.15, text_alphabet=ALPHABET, p_inherits=0.4)
     projs = [projects.gen_valid_project(rng, cfg) for _ in range(n)]
     # toml needs translations-path for the csr variant; harmless elsewhere
